@@ -90,7 +90,8 @@ class B:
         self.raw(b'\x00')
 
     def body(self, tag):
-        self.lst(2); self.uint(tag, 2)
+        # the choice tag steers the grammar: structural, never symbolic
+        self.lst(2); self.tl(6, 2); self.raw(tag.to_bytes(2, 'big'))
 
 
 def opt(b, present, f):
@@ -98,12 +99,19 @@ def opt(b, present, f):
     else: b.none()
 
 
+def opt_octets(b, v):
+    """optional octet string; a present-but-empty one needs a non-minimal TL field because `01` means absent"""
+    if v is None: b.none()
+    elif len(v) == 0: b.octets(v, 'pad')
+    else: b.octets(v)
+
+
 def msg_open(b, tid=b'\x01\x02', codepage=None, client=None, req=b'\xaa\xbb', server=b'\x0a\x01\x02\x03', ref_time=None, version=None, tform='min'):
     b.begin_msg(tid)
     b.body(0x0101)
     b.lst(6)
-    opt(b, codepage is not None, lambda: b.octets(codepage))
-    opt(b, client is not None, lambda: b.octets(client))
+    opt_octets(b, codepage)
+    opt_octets(b, client)
     b.octets(req); b.octets(server, tform)
     opt(b, ref_time is not None, lambda: b.time(*ref_time))
     opt(b, version is not None, lambda: b.uint(version, 1))
@@ -114,7 +122,7 @@ def msg_close(b, tid=b'\x09', sig=None):
     b.begin_msg(tid)
     b.body(0x0201)
     b.lst(1)
-    opt(b, sig is not None, lambda: b.octets(sig))
+    opt_octets(b, sig)
     b.end_msg()
 
 
@@ -132,20 +140,20 @@ def entry(b, name=b'\x01\x00\x01\x08\x00\xff', status=None, val_time=None, unit=
     elif k == 'o': b.octets(value[1], value[2] if len(value) > 2 else 'min')
     elif k == 't':
         b.lst(2); b.tl(6, 1); b.raw(b'\x01'); b.time(*value[1:])
-    opt(b, sig is not None, lambda: b.octets(sig))
+    opt_octets(b, sig)
 
 
 def msg_getlist(b, entries, tid=b'\x05\x06\x07', client=None, server=b'\x0a\x01', name=None, sensor_time=None, sig=None, gw_time=None, lform='min'):
     b.begin_msg(tid)
     b.body(0x0701)
     b.lst(7)
-    opt(b, client is not None, lambda: b.octets(client))
+    opt_octets(b, client)
     b.octets(server)
-    opt(b, name is not None, lambda: b.octets(name))
+    opt_octets(b, name)
     opt(b, sensor_time is not None, lambda: b.time(*sensor_time))
     b.lst(len(entries), lform)
     for e in entries: entry(b, **e)
-    opt(b, sig is not None, lambda: b.octets(sig))
+    opt_octets(b, sig)
     opt(b, gw_time is not None, lambda: b.time(*gw_time))
     b.end_msg()
 
@@ -178,6 +186,10 @@ def library():
     add('octet15', lambda b: msg_getlist(b, [dict(value=('o', bytes(range(14))))]))      # 14 + 1 = 0x0f: largest 1-byte TLF
     add('octet16', lambda b: msg_getlist(b, [dict(value=('o', bytes(range(15))))]))      # needs a 2-byte TLF
     add('octet40', lambda b: msg_getlist(b, [dict(value=('o', bytes(range(40))))]))
+
+    add('list_empty_opts', lambda b: msg_getlist(b, [dict(sig=b''), dict(value=('o', b'', 'pad'))], client=b'', name=b'', sig=b''))
+    add('close_empty_sig', lambda b: msg_close(b, sig=b''))
+    add('open_empty_opts', lambda b: msg_open(b, codepage=b'', client=b''))
 
     def full(b):
         msg_open(b, ref_time=(1000,))
